@@ -1,12 +1,11 @@
 #!/usr/bin/env python3
 """Writes MANIFEST.json from the per-property table below (single source of truth)."""
 import json
-CHECKS = {
- "C10": dict(level="proof", technique="Coq proof (induction over the slicing loop) + extracted-model correspondence",
-   text="Theorems C10_* (Props/C10.v, axiom-free): for every n, batch_size>=1 and permutation the batches concatenate to the permutation, are disjoint, cover every sample exactly once, hold <= batch_size rows, number ceil(n/bs); element a of batch j is element j*bs+a of the permutation for data rows and affinity rows/columns alike; fit performs max_iter*ceil(n/bs) steps; the mlcl decoration records the true indices; categorical models see the full data. The extracted model is run against _batchify, decorated _batchify, recorded real fits and paths.",
-   note="Trusted: Coq kernel, extraction (ExtrOcamlBasic), OCaml driver, python harness; numpy's permutation is an oracle. Modelled, not verified: _batchify / decorate_batch / compute_val_score slicing; the tie is the correspondence on tagged data.",
-   ref="§5 C10"),
-}
+import glob
+CHECKS = {}
+for f in sorted(glob.glob('/verif/meta/C*.json')):
+    d = json.load(open(f))
+    CHECKS[d["property_id"]] = dict(level=d["level"], technique=d["technique"], text=d["text"], note=d["note"], ref=d.get("design_ref", ""))
 NA = {}
 props = [json.loads(l) for l in open('/verif/properties.jsonl')]
 checks = []
